@@ -69,6 +69,8 @@ def _unrank_pattern(n, w, idx):
 def gen_case(run_seed: int, index: int, tier: str) -> dict:
     rng = core.rng_for(run_seed)
     spec = C.gen_code_spec(rng, FAMILIES)
+    if index % 3000 == 9:  # the very large batch of this stretch of runs needs a code with k >= 10 and an ML decoder
+        spec = rng.choice([{"family": "golay", "extended": False, "information_set": "left"}, {"family": "hamming", "mu": 4, "extended": False, "information_set": "left"}])
     case = {"code": spec, "soft": False, "mod": {"scheme": "identity"}, "b": 1}
     try:
         enc = C.build_encoder(spec)
@@ -93,7 +95,14 @@ def gen_case(run_seed: int, index: int, tier: str) -> dict:
     n, k = enc.code_length, enc.code_dimension
     case.update({"decoder": dk, "dec_opts": opts, "advertised_d": d, "d_source": dsrc, "clause": clause})
     B = rng.choice([1, 1, 2, 3, 4, 4, 8])
+    huge = index % 3000 == 9 and "ml" in kinds and t is not None and k >= 10
+    if huge:  # one very large batch per 3000 runs: more rows than 2**24 / 2**k
+        dk, opts, clause = "ml", {}, 1
+        case.update({"decoder": dk, "dec_opts": opts, "clause": clause})
+        B = (1 << 24) // (1 << k) + rng.choice([3, 4, 37])
     case["B"] = B
+    # hard bits arrive in whatever dtype the caller keeps them in (a dtype may be rejected, never answered wrongly)
+    case["msg_dtype"] = rng.choice(["float32", "float32", "float32", "float64", "int64", "int32", "uint8", "int8", "float16", "bfloat16"])
     walk = n <= 15 and rng.random() < 0.5  # deterministic walk over messages / patterns of small codes
     msgs = []
     for r in range(B):
@@ -111,8 +120,13 @@ def gen_case(run_seed: int, index: int, tier: str) -> dict:
             case["prelude"] = sib
     if clause == 1:
         pats = []
+        over = []  # rows that carry MORE than t flips: nothing is asked of them, but they must not disturb the other rows
+        mixed = B >= 2 and rng.random() < 0.25
         for r in range(B):
             w = t if rng.random() < 0.55 else rng.randrange(0, t + 1)
+            if mixed and rng.random() < 0.4 and t + 1 <= n:
+                w = rng.randrange(t + 1, min(n, 2 * t + 3) + 1)
+                over.append(r)
             if walk and w > 0:
                 p = _unrank_pattern(n, w, index * 13 + r)
             else:
@@ -129,7 +143,7 @@ def gen_case(run_seed: int, index: int, tier: str) -> dict:
                 else:
                     p = sorted(rng.sample(range(n), w))
             pats.append([p])
-        case["plan"] = {"kind": "flips", "patterns": pats, "t": t}
+        case["plan"] = {"kind": "flips", "patterns": pats, "t": t, "over_budget_rows": over}
     else:
         words = []
         for r in range(B):
@@ -169,6 +183,11 @@ def execute(case: dict) -> RunResult:
         res.faults[f"{plan['kind']}.{kf}"] += v
     msg = torch.tensor(case["messages"], dtype=torch.float32)
     log.add("result", {"out": lr.out if lr.exc is None else f"raised {type(lr.exc).__name__}", "fired": lr.fired})
+    res.probes[f"msg_dtype.{case.get('msg_dtype', 'float32')}"] += 1
+    if lr.exc is not None and case.get("msg_dtype", "float32") != "float32":
+        res.probes[f"rejected_dtype.{case['msg_dtype']}"] += 1  # a dtype may be rejected; it may not be answered wrongly
+        res.digest, res.n_events = log.digest(), len(log)
+        return res
     res.probes[f"clause{case['clause']}.{C.DECODER_CLASS[dk]}"] += 1
     if case.get("warmup_messages"):
         res.faults["history.earlier_calls_on_same_chain"] += len(case["warmup_messages"])
@@ -183,13 +202,20 @@ def execute(case: dict) -> RunResult:
     elif case["clause"] == 1:
         flips = sum(len(p) for row in plan["patterns"] for p in row)
         if flips:
-            res.nontrivial.append(core.short_hash([spec, dk, case["messages"], plan]))
+            res.nontrivial.append(core.short_hash([spec, dk, case["messages"] if case["B"] <= 64 else core.short_hash(case["messages"]), plan if case["B"] <= 64 else core.short_hash(plan)]))
             if any(len(p) == plan["t"] for row in plan["patterns"] for p in row):
                 res.probes["flips.weight_exactly_t"] += 1
-            res.extra_sets.setdefault("patterns_" + core.short_hash(spec, 8), []).extend(",".join(map(str, p)) for row in plan["patterns"] for p in row if p)
+            if case["B"] <= 64:
+                res.extra_sets.setdefault("patterns_" + core.short_hash(spec, 8), []).extend(",".join(map(str, p)) for row in plan["patterns"] for p in row if p)
+            else:
+                res.probes["huge_batch_cases"] += 1
         else:
             res.probes["zero_fault_runs"] += 1
         same = lr.out.to(torch.float64) == msg.to(torch.float64)
+        overrows = plan.get("over_budget_rows") or []
+        if overrows:
+            same[overrows] = True  # more than t flips: nothing is promised for that row
+            res.faults["flips.over_budget_rows_mixed_in"] += len(overrows)
         if not bool(same.all()):
             r = int((~same).any(dim=1).nonzero()[0])
             violate("mismatch", f"row {r}: {len(plan['patterns'][r][0])} flips at {plan['patterns'][r][0]} (t={plan['t']}) but the decoded message differs from the sent one")
